@@ -413,7 +413,23 @@ def execute(regs, flavour, chooser):
     outs2, how2 = run_once(case, ctx, flavour)
     xlog2 = list(ctx.xlog)
     scratch2 = ctx.scratch
+    if chooser.cost:
+        # third run of the same instance, in which nothing goes wrong any more (a flaky test that
+        # is retried): whatever the earlier runs raised is not this run's business
+        memo = ctx.memo
+        ctx.new_run()
+        ctx.memo, ctx.chooser = {}, _Quiet()
+        outs3, how3 = run_once(case, ctx, flavour)
+        ctx.quiet_run = (outs3, how3, list(ctx.xlog), dict(ctx.memo))
+        ctx.memo, ctx.chooser = memo, chooser
     return ctx, config, (outs1, how1, xlog1, scratch1), (outs2, how2, xlog2, scratch2)
+
+
+class _Quiet:
+    cost = 0
+
+    def choose(self, label, n, costs=None):
+        return 0
 
 
 def check_execution(ctx, config, run1, run2):
@@ -432,6 +448,14 @@ def check_execution(ctx, config, run1, run2):
         problems.append((clause, "execution log %r, lifecycle model %r" % (impl, exp)))
     if model.missing and not problems:
         problems.append(("exactly-once", "model expected decisions for %r" % (model.missing,)))
+    quiet = getattr(ctx, "quiet_run", None)
+    if quiet is not None and not problems:
+        outs3, how3, xlog3, memo3 = quiet
+        qmodel = pg.ModelRun(config, memo3)
+        if pg.impl_stage_log(xlog3) != list(qmodel.stages):
+            problems.append(("rerun-quiet", "third run of the same instance, nothing raising: execution log %r, lifecycle model %r" % (pg.impl_stage_log(xlog3), list(qmodel.stages))))
+        elif (outs3, how3) != (["addSuccess"], ("returned",)) and not any(a[0] == "bad_fixture" for acts in config.actions.values() for a in acts):
+            problems.append(("rerun-quiet", "third run of the same instance, in which nothing raises, gave %r %r (first run: %r %r)" % (outs3, how3, outs1, how1)))
     for sc in (scratch1, scratch2):
         if getattr(sc, "existing", None) != "orig":
             problems.append(("patch-restore", "patched attribute 'existing' is %r after run()" % (getattr(sc, "existing", None),)))
